@@ -133,7 +133,18 @@ def _main(pid, args, seed, t0):
                                      p_, detail={"error": str(exc)[:300], "where": where},
                                      signature=f"{pid}:impl-raises:{type(exc).__name__}:{inner[-1].name}")
                     return None
-                raise
+                if isinstance(exc, (RuntimeError, OSError, MemoryError)) and "driver" in str(exc).lower():
+                    raise            # the model driver / the machine failed: infrastructure
+                # An oracle of the check could not be evaluated on what the implementation returned (wrong shape, wrong
+                # type, None ...).  No case raises on the unchanged tree (all seeds run so far), so this is reported as a
+                # violation without a confirmed failing input rather than as an infrastructure failure: the case is the replay.
+                hf = [f for f in frames if os.sep + "harness" + os.sep in f.filename]
+                at = "%s:%d" % (os.path.basename(hf[-1].filename), hf[-1].lineno) if hf else "?"
+                res_.corr_fail(f"an oracle could not be evaluated on the implementation's output "
+                               f"({type(exc).__name__} at {at}: {str(exc)[:160]})", p_,
+                               detail={"exception": type(exc).__name__, "at": at})
+                res_.count("case_crashed")
+                return None
         mod.run_case = _guarded_run_case
     if args.replay:
         with open(args.replay if os.path.isabs(args.replay) else os.path.join(VERIF, args.replay)) as f:
